@@ -52,7 +52,7 @@ def run(tier, seed):
             res["broken"].append({"what": "correspondence: WaitNModel and the real wait.c (+objects) disagree in lock-step", "scenario": "waitn_mix",
                                   "seed": m["seed"], "detail": m["replay"]})
         tie = {"traces_validated_against_impl": n - len(mism), "lockstep_model_steps": steps, "model_events_hit": sites}
-    specs = [("waitn_mix", {}, 5000, 100000), ("waitn_mix", {"VRT_NOBJ": 5}, 1500, 30000), ("waitn_mix", {"VRT_NOBJ": 1}, 1000, 20000), ("waitn_mix", {"VRT_PLAINPM": 40}, 2000, 40000), ("waitn_mix", {"VRT_AIM": 60}, 3000, 60000), ("waitn_mix", {"VRT_PRE": 1}, 1000, 20000)]
+    specs = [("note_waitwin", {"VRT_AIM": 60}, 1500, 20000), ("cv_mix", {"VRT_MODE": 7}, 600, 10000), ("cv_mix", {"VRT_MODE": 3}, 600, 10000), ("waitn_mix", {}, 5000, 100000), ("waitn_mix", {"VRT_NOBJ": 5}, 1500, 30000), ("waitn_mix", {"VRT_NOBJ": 1}, 1000, 20000), ("waitn_mix", {"VRT_PLAINPM": 40}, 2000, 40000), ("waitn_mix", {"VRT_AIM": 60}, 3000, 60000), ("waitn_mix", {"VRT_PRE": 1}, 1000, 20000)]
     cov = scen_common.run_scenarios(res, specs, tier, seed, {"C11", "C01", "C04", "C10"} | scen_common.LIVENESS | scen_common.CRASHES | scen_common.MEMORY)
     cov["rule"] = ("waitn_mix: one or two nsync_wait_n callers over 1..5 objects of mixed kinds (heap path for > 4), with/without a mutex, "
                    "deadlines past/future/never, actors notifying / decrementing / signalling; returned index checked against object state, "
